@@ -46,6 +46,26 @@ def native_race():
     finally:
         shutil.rmtree(tmp, ignore_errors=True)
 
+def native_scenario(test):
+    """runs one scenario of harness/C06/native_test.go.txt against /repo's working tree; True = it failed"""
+    import tempfile, shutil
+    tmp = tempfile.mkdtemp(prefix='vxnat')
+    try:
+        real = os.path.join(tmp, 'zz_vx_native_test.go')
+        open(real, 'w').write(open(VERIF + '/harness/C06/native_test.go.txt').read())
+        ov = os.path.join(tmp, 'overlay.json')
+        json.dump({'Replace': {'/repo/tasklane/zz_vx_native_test.go': real}}, open(ov, 'w'))
+        env = dict(os.environ, GOFLAGS='-mod=mod', GOPROXY='off', GOSUMDB='off', GOTOOLCHAIN='local')
+        r = subprocess.run(['timeout', '300', 'go', 'test', '-vet=off', '-count=1', '-run', '^' + test + '$', '-overlay', ov, './tasklane'],
+                           cwd='/repo', env=env, capture_output=True, text=True)
+        lines = (r.stdout + r.stderr).splitlines()
+        return [l.strip() for l in lines if 'VX-NATIVE' in l or 'panic:' in l], (r.returncode != 0 and any('VX-NATIVE' in l or 'panic' in l for l in lines))
+    finally:
+        shutil.rmtree(tmp, ignore_errors=True)
+
+NATIVE_FOR = {'accepted task never started: stuck state': 'TestVxStuck', 'head-of-line blocking: idle worker while an accepted task waits': 'TestVxHeadOfLine',
+              'lane goroutine left behind after cancel': 'TestVxShutdown', 'producer stays blocked after cancel': 'TestVxShutdown'}
+
 def main():
     prop, tier = sys.argv[1], (sys.argv[2] if len(sys.argv) > 2 else os.environ.get('VERIF_TIER', 'quick'))
     if tier not in CONFIGS: tier = 'quick'
@@ -55,6 +75,7 @@ def main():
     violations = []; notes = []; samples = []; states = 0; transitions = 0; funcs = {}; stubs = {}; files = {}
     inconclusive = []
     race_candidates = []
+    native_done = {}
     validated = [0]
     for cfg in CONFIGS[tier]:
         extra = dict(status=1 if prop == 'C14' else 0, wait=1 if prop == 'C07' else 0, onelane=1 if prop == 'C08' else 0)
@@ -158,11 +179,13 @@ def main():
             for pf in prog_fail:
                 # is such a stuck state reachable from Init?
                 notes.append('%s: progress obligation failed under the invariant: %s (%s)' % (cname, pf[0], pf[1]))
-                if pf[2] is not None:
-                    pcs = pf[2]['pc']
-                    r, tr = ck.bmc(K + 4, lambda s, pcs=pcs: And(*[s['pc'][i] == v for i, v in enumerate(pcs)]), cname + ':bmc:stuck state reachable')
-                    if r == sat:
-                        violations.append({'config': cname, 'what': pf[0], 'trace': tr})
+                test = NATIVE_FOR.get(pf[0])
+                if test and test not in native_done:
+                    native_done[test] = native_scenario(test)
+                if test and native_done[test][1]:
+                    violations.append({'config': cname, 'what': pf[0] + ' (state found by the solver under the proved invariant; confirmed natively by ' + test + ')',
+                                       'trace': [str(pf[2])] + native_done[test][0]})
+                    validated[0] += 1
         for rc_ in races:
             race_candidates.append({'config': cname, 'cell': rc_['cell'], 'a': rc_['a'], 'b': rc_['b'], 'state': rc_['trace']})
         res['obligations'] = len(ck.stats['obligations'])
